@@ -117,6 +117,9 @@ $HTTP["url"] =^ "/eh2/" {
 $HTTP["url"] =^ "/noka/" {
     server.max-keep-alive-requests = 0
 }
+$HTTP["url"] =^ "/h10/" {
+    server.protocol-http11 = "disable"
+}
 $HTTP["cookie"] =~ "deny=1" {
     url.access-deny = ("")
 }
@@ -131,6 +134,12 @@ if (($ENV{QUERY_STRING} || "") =~ /(^|&)lredir=1/) { print "Location: /files/b.t
 print "Content-Type: text/plain\r\n\r\n";
 foreach my $k (sort keys %ENV) { my $v = $ENV{$k}; $v =~ s/([^ -~]|%)/sprintf("%%%02x", ord($1))/ge; print "$k=$v\n"; }
 print "BODY=", unpack("H*", $body), "\n";
+'''
+
+SINK_PL = r'''#!/usr/bin/perl
+my $body = "";
+if (($ENV{CONTENT_LENGTH} || 0) > 0) { read(STDIN, $body, $ENV{CONTENT_LENGTH}); }
+print "Content-Type: text/plain\r\n\r\nok\n";
 '''
 
 SSI_PAGE = ('<html><!--#echo var="REQUEST_URI"-->|<!--#echo var="QUERY_STRING"-->|'
@@ -167,6 +176,8 @@ SITE_FILES = {
     "list/two.txt": b"22\n",
     "auth/secret.txt": b"the secret\n",
     "cgi/env.pl": ENV_PL.encode(),
+    "cgi/sink.pl": SINK_PL.encode(),
+    "h10/k.txt": b"answered as HTTP/1.0\n",
     "ssi/page.shtml": SSI_PAGE.encode(),
     "eh/present.txt": b"present\n",
     "eh2/present.txt": b"present2\n",
@@ -210,7 +221,7 @@ class Req:
     """semantic request: method, path (origin-form incl. query), header list, optional body"""
 
     def __init__(self, method, target, headers=(), body=None, authority="c08.test", tag=None,
-                 raw_h1=None, chunked=False, abort=None, raw_h2=None):
+                 raw_h1=None, chunked=False, abort=None, raw_h2=None, no_end=False, no_response=False):
         self.method, self.target, self.headers, self.body = method, target, list(headers), body
         self.authority = authority
         self.tag = tag or ("%s %s" % (method, target))
@@ -218,6 +229,8 @@ class Req:
         self.chunked = chunked        # h1.1: send the body chunked (history only)
         self.abort = abort            # number of body bytes actually sent before the client gives up
         self.raw_h2 = raw_h2          # header field list of the HTTP/2 analogue of a malformed message
+        self.no_end = no_end          # h2: HEADERS without END_STREAM although no DATA follows (announced body never sent)
+        self.no_response = no_response  # h1 bytes the server must not answer (a lone blank line)
 
     def is_head(self):
         return self.method == "HEAD"
@@ -497,7 +510,7 @@ class H2Client(e2e.H2Conn):
             sid = self.next_sid
             self.next_sid += 2
         self.swin[sid] = self.iwin
-        self.send(self.headers_frame(sid, q.h2_fields(), end_stream=(q.body is None and end)))
+        self.send(self.headers_frame(sid, q.h2_fields(), end_stream=(q.body is None and end and not q.no_end)))
         return sid
 
     def data(self, sid, body, end=True):
@@ -1295,6 +1308,9 @@ def h2_probe(rng):
     else:
         base = rng.choice(H2_DIRTY_BAD)
     fs = list(base)
+    if rng.random() < 0.35:       # another method: a rejected HEAD must stay a HEAD (no body in the error response)
+        m = rng.choice(["HEAD", "HEAD", "POST", "OPTIONS", "DELETE", "QUERY"])
+        fs = [(k, m if k == ":method" and v == "GET" else v) for k, v in fs]
     if rng.random() < 0.3:
         fs.append(rng.choice([("x-extra", "1"), ("cookie", "z=9"), ("accept", "*/*"), ("x-ws", "  padded \t"), ("empty", "")]))
     if rng.random() < 0.1 and len(fs) > 1:
@@ -1331,6 +1347,8 @@ def gen_rp(ctx):
         else:
             rr = rng.random()
             blk = rng.choice(H1_DIRTY_VALID + H1_DIRTY_BAD) if rr < 0.5 else c01.build(rng, 0.7)
+            if blk.startswith(b"GET ") and rng.random() < 0.3:
+                blk = b"HEAD " + blk[4:]         # a rejected HEAD must stay a HEAD
             probe = _hx(blk)
         if not h2 and b"[" in blk:
             nskip += 1          # IPv6-literal hosts are not modelled (inet_pton), as in C01
@@ -1463,6 +1481,16 @@ def modelled_requests():
           Req("GET", "/files/b.txt", [("Connection", "close")], raw_h2=[(":method", "GET"), (":scheme", "http"),
                                                                         (":path", "/files/b.txt"), (":authority", "c08.test")]),
           Req("GET", "/files/a.txt", [("Cookie", "a=1"), ("Cookie", "b=2"), ("Accept", "*/*")])]
+    get_b = b"GET /files/b.txt HTTP/1.1\r\nHost: c08.test\r\n\r\n"
+    R += [Req("POST", "/cgi/sink.pl", [("Content-Type", "text/plain")], body=b"abc", tag="m:post-sink"),
+          Req("POST", "/cgi/sink.pl", [("X-Variant", "b")], body=b"x" * 5000, tag="m:post-sink-5k"),
+          Req("GET", "/cgi/sink.pl"),
+          Req("POST", "/files/a.txt", [("Content-Length", "300000")], tag="m:413", no_end=True),
+          Req("GET", "/h10/k.txt"), Req("HEAD", "/h10/k.txt"), Req("GET", "/h10/missing"),
+          Req("GET", "/files/b.txt", raw_h1=b"\r\n" + get_b, tag="m:blank-get"),
+          Req("GET", "/files/b.txt", raw_h1=b"\n" + get_b, tag="m:lf-get"),
+          Req("GET", "/files/b.txt", raw_h1=b"\r\n\r\n" + get_b, tag="m:blank2-get"),
+          Req("GET", "/files/b.txt", raw_h1=b"\r\n", tag="m:lone-blank", no_response=True)]
     R += [h for h in HIST_ONLY if h.tag in ("h:bad-ctl", "h:no-host-11", "h:bad-version", "h:431", "h:unknown-method",
                                            "h:two-cl", "h:te-gzip")]
     return R
@@ -1495,8 +1523,11 @@ def model_site_tokens(srv, etags):
     toks.append("sc=h;%s;-;%s;*;*;%s" % (_hx("vhost.test"), _kv([("X-Vhost", "1")]), _hx(os.path.join(srv.root, "vhost"))))
     toks.append("sc=u;%s;-;%s;*;*;*" % (_hx("/files/"), _kv([("X-Url-Files", "1")])))
     toks.append("sc=u;%s;-;%s;*;*;*" % (_hx("/files/a"), _kv([("X-Url-A", "1")])))
+    toks.append("sc=m;%s;-;%s;*;*;*" % (_hx("POST"), _kv([("X-Was-Post", "1")])))
     toks.append("sc=q;%s;%s;%s;*;*;*" % (_hx("x-variant"), _hx("b"), _kv([("X-Variant-Seen", "b")])))
     toks.append("sc=u;%s;-;*;*;0;*" % _hx("/noka/"))
+    toks.append("sc=u;%s;-;*;*;*;*;0" % _hx("/h10/"))
+    toks += ["sink=" + _hx(".pl"), "sinkbody=" + _hx("ok\n"), "sname=" + _hx("c08.test"), "maxreq=256"]
     return toks
 
 
@@ -1514,6 +1545,10 @@ def h1_sequence(srv, ver, reqs):
     out = []
     try:
         for q in reqs:
+            if q.no_response:          # (only after a request that left the connection open: the server waits)
+                c.send(q.h1(ver))
+                out.append(("skip", False))
+                continue
             c.heads.append(q.is_head())
             c.send(q.h1(ver))
             rs, err = c.read(len(c.heads))
@@ -1522,7 +1557,7 @@ def h1_sequence(srv, ver, reqs):
                 break
             r = rs[-1]
             cl = (e2e.hdr(r, "connection") or b"").lower()
-            closed = b"close" in cl or c.closed or (ver == 0 and b"keep-alive" not in cl)
+            closed = b"close" in cl or c.closed or ((ver == 0 or r.get("version") == b"1.0") and b"keep-alive" not in cl)
             o = make_obs(r["status"], r["headers"], r["body"], srv)
             o["body"] = r["body"]
             out.append((o, closed))
@@ -1556,7 +1591,7 @@ def h2_sequence(srv, reqs):
 
 def model_msg(q, ver):
     if ver == 2:
-        return "1/" + _kv(q.h2_fields())
+        return ("0/" if q.body is not None or q.no_end else "1/") + _kv(q.h2_fields())
     return _hx(q.h1(ver))
 
 
@@ -1606,7 +1641,16 @@ def cold_job(bd, items):
 
 
 def server_job(bd, jobs, seqs, quick):
-    """one server process: references for every probe, then its shard of cases and of modelled sequences"""
+    """one server process: references for every probe, then its shard of cases and of modelled sequences;
+    a server that never answered anything (start-up lost to machine load) is started once more"""
+    res = _server_job(bd, jobs, seqs, quick)
+    if res["error"] and not res["refs"] and not res["san"]:
+        time.sleep(1.0)
+        res = _server_job(bd, jobs, seqs, quick)
+    return res
+
+
+def _server_job(bd, jobs, seqs, quick):
     res = {"cases": [], "refs": {}, "seqs": [], "san": None, "error": None, "closing": {}}
     srv = new_server(bd)
     try:
@@ -1651,7 +1695,7 @@ def gen_sequences(ctx):
     seqs = []
     for ver in (0, 1, 2):
         for q in M:                      # every modelled request alone
-            if ver == 0 and q.raw_h1 is not None:
+            if (ver == 0 and q.raw_h1 is not None) or q.no_response:
                 continue
             seqs.append((ver, [q]))
         for _ in range(n):
@@ -1659,6 +1703,12 @@ def gen_sequences(ctx):
             rs = [rng.choice(M) for _ in range(k)]
             if ver == 0:
                 rs = [q for q in rs if q.raw_h1 is None] or [M[0]]
+            if ver == 2:
+                rs = [q for q in rs if not q.no_response] or [M[0]]
+            while rs[0].no_response:         # first on a connection a blank line is answered 400 at once (m:blank-get)
+                rs = rs[1:] or [M[0]]
+            # a second lone blank line is answered 400 at once as well (m:blank2-get covers it)
+            rs = [q for i, q in enumerate(rs) if not (q.no_response and i and rs[i - 1].no_response)]
             seqs.append((ver, rs))
     return seqs
 
@@ -1845,7 +1895,7 @@ def run_e2e(ctx):
                 mparts = m.split(" | ")
                 rparts = []
                 for o, closed in real:
-                    rparts.append("none" if o is None else real_to_model_obs(o, closed))
+                    rparts.append("none" if o is None or o == "skip" else real_to_model_obs(o, closed))
                 mcmp = []
                 for i, mp in enumerate(mparts[:len(rparts)]):
                     f = mp.split(",")
